@@ -262,37 +262,37 @@ def Val.isTensor : Val → Bool
 
 theorem Cleared.of_gridSet {w w' : World} {id : Nat} {o : Obj} (ho : w.objs id = some o)
     (hleaf : o.cls.isComposite = false) {g : Nat} (hg : g ≠ o.grid)
-    (hb : o.cls.isBSpline = true → (w.lookup o).isTensor = true)
     (hs : gridSet w id o g = (w', none)) : Cleared w' id o.cls := by
   unfold gridSet at hs
   simp only [hleaf] at hs
   by_cases hbs : o.cls.isBSpline = true
-  · simp only [hbs, if_true] at hs
-    have ht := hb hbs
-    have key : ∀ c : Nat, (if g = o.grid then (w, (none : Option Err))
-        else if g = o.grid + 1 then
-          let w1 := w.setObj id { o with grid := g }
-          match dataSet w1 id { o with grid := g } (w.cells c) with
+  · simp only [hbs, if_true, Bool.false_eq_true, if_false, if_neg hg] at hs
+    have key : ∀ c : Nat, (if g = o.grid + 1 then
+          match dataSet (w.setObj id { o with u := none, v := none, grid := g }) id
+              { o with u := none, v := none, grid := g } (w.cells c) with
           | .ok w2 => (w2, none)
-          | .error e => (w1, some e)
-        else (w, some .value)) = (w', none) → Cleared w' id o.cls := by
+          | .error e => (w.setObj id { o with u := none, v := none, grid := g }, some e)
+        else (w, some .value)) = (w', (none : Option Err)) → Cleared w' id o.cls := by
       intro c hk
-      rw [if_neg hg] at hk
       split at hk
-      · simp only at hk
-        split at hk
+      · split at hk
         · next w2 hd =>
           simp only [Prod.mk.injEq, and_true] at hk; subst hk
-          exact Cleared.of_dataSet (o := { o with grid := g }) hd
+          exact Cleared.of_dataSet (o := { o with u := none, v := none, grid := g }) hd
         · simp at hk
       · simp at hk
+    have direct : (w.setObj id { o with u := none, v := none, grid := g }, (none : Option Err)) = (w', none) →
+        Cleared w' id o.cls := by
+      intro hk
+      simp only [Prod.mk.injEq, and_true] at hk; subst hk
+      exact ⟨_, objs_setObj_same _ _ _, rfl, rfl⟩
     cases hv : w.lookup o with
     | param c => simp only [hv] at hs; exact key c hs
     | tensor c => simp only [hv] at hs; exact key c hs
-    | none => simp [hv, Val.isTensor] at ht
-    | fn f => simp [hv, Val.isTensor] at ht
-    | fnmod f => simp [hv, Val.isTensor] at ht
-    | obj s => simp [hv, Val.isTensor] at ht
+    | none => simp only [hv] at hs; exact direct hs
+    | fn f => simp only [hv] at hs; exact direct hs
+    | fnmod f => simp only [hv] at hs; exact direct hs
+    | obj s => simp only [hv] at hs; exact direct hs
   · simp only [hbs, Bool.false_eq_true, if_false] at hs
     have hbase := Cleared.of_baseGrid ho hg
     have key : ∀ c : Nat, (match (baseGrid w id o g).objs id with
